@@ -347,17 +347,34 @@ func stress(plan *Plan, rig *Rig, rec *Rec, cls map[int]*cl, rng *rand.Rand) {
 // consumeEvents' send, publishTopic after it saw its source closed); everything else runs on its own
 // right after the step that enables it. The recorded trace - not this driver - is what TLC judges.
 func replay(plan *Plan, rig *Rig, rec *Rec, cls map[int]*cl, res *Result) {
-	const wait = 400 * time.Millisecond
-	settle := func() { rec.Settle(2*time.Millisecond, 60*time.Millisecond) }
+	const wait = 1200 * time.Millisecond
 	var pendingSrc []int
+	expect := map[gateKey]int{}
 	diverge := func(i int, s Step, why string) {
 		res.Diverged = append(res.Diverged, fmt.Sprintf("step %d (%d,%s): %s", i+1, s.P, s.L, why))
 	}
+	// every step of the schedule that has a hook must show up in the recording before the next one is taken
+	observed := func(i int, s Step) bool {
+		k := gateKey{s.P, s.L}
+		if rec.WaitEvent(s.P, s.L, expect[k]+1, wait) {
+			expect[k]++
+			return true
+		}
+		diverge(i, s, "the real code did not take this step")
+		return false
+	}
 	clientOf := func(p int) *cl { return cls[p-30] }
+	failed := 0
 	for i, s := range plan.Steps {
+		if failed >= 6 { // the real code has left the schedule for good
+			break
+		}
+		ok := true
 		switch {
-		case s.P == SRC && s.L == "src_send" && s.T > 0:
-			pendingSrc = append(pendingSrc, s.T)
+		case s.P == SRC && s.L == "src_send":
+			if s.T > 0 {
+				pendingSrc = append(pendingSrc, s.T)
+			}
 		case s.P == CE && s.L == "ce_lookup":
 			if len(pendingSrc) == 0 {
 				diverge(i, s, "no event pending")
@@ -368,14 +385,17 @@ func replay(plan *Plan, rig *Rig, rec *Rec, cls map[int]*cl, res *Result) {
 			rec.Note(SRC, "src_send", "", t)
 			if !rig.Emit(t, wait) {
 				diverge(i, s, "consumeEvents did not take the event")
+				ok = false
+			} else {
+				ok = observed(i, s)
 			}
-			settle()
 		case s.P == CE && s.L == "ce_send":
 			if rec.WaitParked(CE, "ce_send", wait) {
+				expect[gateKey{CE, "ce_send"}]++
 				rec.Release(CE)
-				settle()
 			} else {
 				diverge(i, s, "consumeEvents not at its send")
+				ok = false
 			}
 		case s.P == EL && s.L == "el_wait":
 			var p int
@@ -387,22 +407,20 @@ func replay(plan *Plan, rig *Rig, rec *Rec, cls map[int]*cl, res *Result) {
 			}
 			if rec.WaitParked(p, l, wait) {
 				rec.Release(p)
-				settle()
+				ok = observed(i, s)
 			} else {
 				diverge(i, s, fmt.Sprintf("sender %d not at %s", p, l))
+				ok = false
 			}
-		case s.P > 10 && s.P < 30 && s.L == "pt_closeall":
+		case s.P > 10 && s.P < 30 && (s.L == "pt_closeall" || s.L == "pt_chk"):
 			if rec.WaitParked(s.P, "pt_loop", wait) {
 				rec.Release(s.P)
-				settle()
+				if s.L == "pt_closeall" || s.To != "pt_done" {
+					ok = observed(i, s)
+				}
 			} else {
 				diverge(i, s, "publishTopic goroutine has not seen its source closed")
-			}
-		case s.P > 10 && s.P < 30 && s.L == "pt_chk" && s.To == "pt_done":
-			// fixed design: the stale publisher just goes away
-			if rec.WaitParked(s.P, "pt_loop", wait) {
-				rec.Release(s.P)
-				settle()
+				ok = false
 			}
 		case s.P > 30 && s.P < 40:
 			c := clientOf(s.P)
@@ -445,8 +463,20 @@ func replay(plan *Plan, rig *Rig, rec *Rec, cls map[int]*cl, res *Result) {
 				case c.cmds <- cmd:
 				default:
 				}
-				settle()
 			}
+			if s.L != "c_begin" || cmd != "" {
+				ok = observed(i, s)
+			}
+			if s.L == "c_flock" || (s.L == "c_topics" && !plan.Api) {
+				expect[gateKey{s.P, "c_begin"}]++
+			}
+		case s.L == "idle":
+		default:
+			// steps the real goroutines take on their own: wait until they are in the recording
+			ok = observed(i, s)
+		}
+		if !ok {
+			failed++
 		}
 	}
 	// the schedule is over: let everything run to quiescence
@@ -455,7 +485,7 @@ func replay(plan *Plan, rig *Rig, rec *Rec, cls map[int]*cl, res *Result) {
 		rec.Note(SRC, "src_send", "", t)
 		rig.Emit(t, wait)
 	}
-	rec.Settle(5*time.Millisecond, 500*time.Millisecond)
+	rec.Settle(10*time.Millisecond, 1500*time.Millisecond)
 	for _, c := range cls {
 		close(c.cmds)
 	}
